@@ -453,11 +453,35 @@ func c03ItemLists(c *core.Ctx, vocab [][]string) {
 		if i%2 == 0 {
 			bare = r.Intn(nItems)
 		}
+		// in a quarter of the lists the links spell their artifact paths in a form that needs cleaning
+		// (./a, d//a, d/./a): the rules see the cleaned names with the digests recorded for them
+		respell := i%4 == 1
+		spell := func(ls ref.LinkState) ref.LinkState {
+			if !respell {
+				return ls
+			}
+			sp := func(m map[string]ref.HashObj) map[string]ref.HashObj {
+				out := map[string]ref.HashObj{}
+				for k, v := range m {
+					switch r.Intn(4) {
+					case 0:
+						k = "./" + k
+					case 1:
+						k = strings.Replace(k, "/", "//", 1)
+					case 2:
+						k = strings.Replace(k, "/", "/./", 1)
+					}
+					out[k] = v
+				}
+				return out
+			}
+			return ref.LinkState{Materials: sp(ls.Materials), Products: sp(ls.Products)}
+		}
 		links := map[string]ref.LinkState{}
 		md := map[string]intoto.Metadata{}
 		for n, l := range c03Dst() {
 			links[n] = l
-			md[n] = toLinkMeta(n, l)
+			md[n] = toLinkMeta(n, spell(l))
 		}
 		var items []ref.Item
 		var implItems []interface{}
@@ -465,7 +489,7 @@ func c03ItemLists(c *core.Ctx, vocab [][]string) {
 			name := fmt.Sprintf("item%d", k)
 			ls := ref.LinkState{Materials: stateOf(r.Intn(81)), Products: stateOf(r.Intn(81))}
 			links[name] = ls
-			md[name] = toLinkMeta(name, ls)
+			md[name] = toLinkMeta(name, spell(ls))
 			var mats, prods [][]string
 			if k != bare {
 				for j, m := 0, r.Intn(3); j < m; j++ {
@@ -493,7 +517,7 @@ func c03ItemLists(c *core.Ctx, vocab [][]string) {
 		}
 		refErr := ref.VerifyItems(items, links)
 		var implErr error
-		detail := map[string]any{"items": items, "items_are_inspections": inspections, "links": links, "item_without_rules": bare}
+		detail := map[string]any{"items": items, "items_are_inspections": inspections, "links": links, "item_without_rules": bare, "artifact_paths_spelled_in_a_form_that_needs_cleaning": respell}
 		c.Begin(id)
 		panicked := c.Guard(id, "VerifyArtifacts", detail, func() { implErr = intoto.VerifyArtifacts(implItems, md) })
 		c.End(id)
@@ -708,7 +732,7 @@ func init() {
 	core.Register(&core.Property{
 		ID:    "C03",
 		Level: "exploration",
-		Rule: "exhaustive: universe paths {a, d/a, d/b, dx/a} x hashes {h1,h2}: all 6561 (materials,products) link states x rule lists over a 50-rule vocabulary (7 rule types, patterns * a d/* ? d/a, MATCH in all 4 forms with prefixes d, d/, e, e/d, both destination types, missing destination) of length<=1 completely and all 2-rule lists each on a seed-determined half of the link states (thorough); quick: all lists of length<=1 and a seeded 1% of the 2-rule lists, each on a seed-determined half of the link states, on the material and on the product side, plus every pair (one material rule, one product rule) of the vocabulary on both sides of the same item (thorough: all 2601 pairs, quick: 1/8 of them; a quarter of the link states each), for Step and Inspection items (thorough also: all 2744 lists of length 3 over a 14-rule sub-vocabulary on the 3-path sub-universe {a, d/a, dx/a}, 729 link states, alternating sides), each list also with a terminal probe DISALLOW <path> per universe path (queue observability); random: 8-path universe, 4 hash objects incl. other algorithm sets, lists of 1-11 rules with mixed-case keywords and occasional malformed rules, patterns with classes, negated classes, escapes and stars inside classes; item lists: 6000 (quick) / 150000 (thorough) lists of 2-4 Step or Inspection items, each with its own link and 0-2 vocabulary rules per side, half of the lists with one item that has no rules (absent or empty lists), whole-list verdict against the reference; grammar: all token lists of length<=4 over 8 tokens + every valid form with <=2 substitutions / 1 insertion / 1 deletion in random casing. " +
+		Rule: "exhaustive: universe paths {a, d/a, d/b, dx/a} x hashes {h1,h2}: all 6561 (materials,products) link states x rule lists over a 50-rule vocabulary (7 rule types, patterns * a d/* ? d/a, MATCH in all 4 forms with prefixes d, d/, e, e/d, both destination types, missing destination) of length<=1 completely and all 2-rule lists each on a seed-determined half of the link states (thorough); quick: all lists of length<=1 and a seeded 1% of the 2-rule lists, each on a seed-determined half of the link states, on the material and on the product side, plus every pair (one material rule, one product rule) of the vocabulary on both sides of the same item (thorough: all 2601 pairs, quick: 1/8 of them; a quarter of the link states each), for Step and Inspection items (thorough also: all 2744 lists of length 3 over a 14-rule sub-vocabulary on the 3-path sub-universe {a, d/a, dx/a}, 729 link states, alternating sides), each list also with a terminal probe DISALLOW <path> per universe path (queue observability); random: 8-path universe, 4 hash objects incl. other algorithm sets, lists of 1-11 rules with mixed-case keywords and occasional malformed rules, patterns with classes, negated classes, escapes and stars inside classes; item lists: 6000 (quick) / 150000 (thorough) lists of 2-4 Step or Inspection items, each with its own link and 0-2 vocabulary rules per side, half of the lists with one item that has no rules (absent or empty lists), a quarter with artifact paths spelled in a form that needs cleaning (./a, d//a, d/./a) in all links, whole-list verdict against the reference; grammar: all token lists of length<=4 over 8 tokens + every valid form with <=2 substitutions / 1 insertion / 1 deletion in random casing. " +
 			"Oracle = reference queue interpreter + reference grammar written from the spec text, using the reference glob (not the library's). non-trivial/distinct = enumerated cases are distinct by construction, random ones by hash of the whole case",
 		Assumptions: []string{
 			"only clean relative slash paths, clean patterns and prefixes (path.Clean(x)==x, prefixes also with one trailing slash) are generated: behaviour on unclean paths is not stated by the property and not judged",
